@@ -590,6 +590,66 @@ def normalize_module(tree, rel, stats=None):
   return tree
 
 
+def class_attr_fps(cnode):
+  """Ordered [(attr, fp)] of `self.<attr> = ...` first assignments in a class."""
+  out = []
+  seen = set()
+  for m in cnode.body:
+    if not isinstance(m, (ast.FunctionDef, ast.AsyncFunctionDef)):
+      continue
+    params, locs = local_defs_fp(m)
+    names = set(params) | set(n for n, _ in locs)
+    for n in sorted([x for x in ast.walk(m) if isinstance(x, ast.Assign)], key=lambda x: (x.lineno, x.col_offset)):
+      for t in n.targets:
+        ts = t.elts if isinstance(t, (ast.Tuple, ast.List)) else [t]
+        for x in ts:
+          if isinstance(x, ast.Attribute) and isinstance(x.value, ast.Name) and x.value.id == 'self' and x.attr not in seen:
+            seen.add(x.attr)
+            out.append((x.attr, m.name + '|' + (_shape(n.value, names) if len(ts) == 1 else 'tuple')))
+  return out
+
+
+def normalize_attrs(trees, stats=None):
+  """Package-level pass: rename private instance attributes that were renamed relative to
+  the reference tree (matched by the shape of their first assignment), when the new name is
+  used in one class of one module only."""
+  stats = stats if stats is not None else {}
+  b = load_baseline().get('classes', {})
+  if not b:
+    return
+  # how often is each attribute name mentioned per module
+  mentions = {}
+  for rel, tree in trees.items():
+    for n in ast.walk(tree):
+      if isinstance(n, ast.Attribute):
+        mentions.setdefault(n.attr, set()).add(rel)
+  for rel, tree in trees.items():
+    for c in [x for x in ast.walk(tree) if isinstance(x, ast.ClassDef)]:
+      base = b.get(rel + '::' + c.name)
+      if not base:
+        continue
+      cur = class_attr_fps(c)
+      cur_names = set(a for a, _ in cur)
+      base_names = [a for a, _ in base]
+      mapping = {}
+      used = set()
+      for a, fp in cur:
+        if a in base_names or not a.startswith('_') or a.startswith('__'):
+          continue
+        if mentions.get(a, set()) - {rel}:
+          continue
+        cands = [ba for ba, bfp in base if bfp == fp and ba not in cur_names and ba not in used]
+        same_fp_cur = [x for x, f2 in cur if f2 == fp and x not in base_names]
+        if len(cands) == 1 and len(same_fp_cur) == 1:
+          mapping[a] = cands[0]
+          used.add(cands[0])
+      if mapping:
+        stats['attrs_renamed'] = stats.get('attrs_renamed', 0) + len(mapping)
+        for n in ast.walk(c):
+          if isinstance(n, ast.Attribute) and n.attr in mapping and isinstance(n.value, ast.Name) and n.value.id == 'self':
+            n.attr = mapping[n.attr]
+
+
 def baseline_of_tree(trees):
   """Build the reference tables from {rel: ast module}."""
   functions, inventory = {}, {}
@@ -612,6 +672,9 @@ def baseline_of_tree(trees):
     for n in own_nodes(node):
       if isinstance(n, (ast.FunctionDef, ast.AsyncFunctionDef)):
         fn(n, rel, q + '.' + n.name)
+  classes = {}
   for rel, tree in trees.items():
     walk(tree.body, rel, '')
-  return {'functions': functions, 'inventory': inventory}
+    for c in [x for x in ast.walk(tree) if isinstance(x, ast.ClassDef)]:
+      classes[rel + '::' + c.name] = [[a, fp] for a, fp in class_attr_fps(c)]
+  return {'functions': functions, 'inventory': inventory, 'classes': classes}
